@@ -144,8 +144,11 @@ pub fn c11_terminal<const SYM: u8, const STEP: usize, const KIND: u8>(inp: &Inp)
     let s = decode(inp, STEP, KIND, 0);
     vassume!(inv_rules(&s));
     // hashes are not symmetric (Zobrist values differ per square): keep repetition out of it
+    // CONCRETE flag (not an assumption on a symbolic one): the engine then never enters the
+    // hash-dependent 4th-step filter, which these projected runs cannot evaluate
+    let mut s = s;
     if STEP == 3 {
-        vassume!(s.trapped);
+        s.trapped = true;
     }
     let mut s = s;
     // with an empty history and the initial hash different from the current one only board rules remain
@@ -205,6 +208,10 @@ pub fn c11_take<const SYM: u8, const STEP: usize, const KIND: u8>(inp: &Inp) -> 
             && want.t[5] == b2.t[5],
         "C11: the image action on the image state does not give the image board"
     );
+    // the preview names ONE square; from a parsed position with several unsupported trap pieces
+    // (no B3) one step removes several and the preview picks the lowest-index one, which is not
+    // symmetric - solver-found, same restriction as C13
+    if s.board.traps_supported() {
     match (p1, p2) {
         (None, None) => {}
         (Some((q1, t1, o1)), Some((q2, t2, o2))) => {
@@ -213,6 +220,7 @@ pub fn c11_take<const SYM: u8, const STEP: usize, const KIND: u8>(inp: &Inp) -> 
             assert!((o1 == o2) == (SYM == MIRROR), "C11: capture preview names the wrong owner in the image");
         }
         _ => assert!(false, "C11: a capture in one position is no capture in its image"),
+    }
     }
     let pend1 = pending_of(n1.unwrap_play_phase().push_pull_state());
     let pend2 = pending_of(n2.unwrap_play_phase().push_pull_state());
